@@ -155,9 +155,11 @@ func (smi *SegmentMicroIndex) GetCMIsForBlock(blkNum uint16,
 // Returns the cmi for a given block & column, or any errors encountered
 func (smi *SegmentMicroIndex) GetCMIForBlockAndColumn(blkNum uint16, cname string,
 	qid uint64) (*structs.CmiContainer, error) {
-	allCmis, err := smi.GetCMIsForBlock(blkNum, qid)
-	if err != nil {
-		return nil, err
+	// cmis are kept per block, and only for the columns that have one in that block: a
+	// block without an entry has none of the columns that were loaded (LoadCmiForSearchTime)
+	allCmis, exists := smi.blockCmis[blkNum]
+	if !exists {
+		return nil, ErrCMIColNotFound
 	}
 	retVal, ok := allCmis[cname]
 	if !ok {
